@@ -67,6 +67,8 @@ func VerifC16Env() {
 	}
 	vrtFile(abs(name1), f1)
 	vrtFile(w+"/alt.env", "A=alt\n")
+	// a third file references a key that the project environment and both earlier files may define
+	vrtFile(w+"/three.env", "RK=<${K}>\n")
 	present2 := !in2 && vrtChoice("file2Present", 2) == 0
 	present2 = !present2
 	required2 := present2 || vrtChoice("file2Required", 2) == 1
@@ -93,7 +95,7 @@ func VerifC16Env() {
 		}
 	}
 	mk := func(first string) map[string]any {
-		s := map[string]any{"image": "i", "env_file": []any{first, second}}
+		s := map[string]any{"image": "i", "env_file": []any{first, second, "three.env"}}
 		if envAttr != nil {
 			s["environment"] = envAttr
 		}
@@ -171,10 +173,30 @@ func VerifC16Env() {
 			q, okq := e["Q"]
 			vrtAssert("outer-value-beats-earlier-line", okq && q != nil && *q == "<"+vo+">")
 		}
+		{
+			// what the third file saw of K: the latest of the earlier files that define it; the project environment
+			// where no file does (which of the two wins where both define it is not stated: not asserted)
+			rk, ok := e["RK"]
+			vrtAssert("third-file-reference-present", ok && rk != nil)
+			if ok && rk != nil {
+				vrtObserve("RK-"+name, *rk)
+				switch {
+				case (in2 || has1) && inPE:
+				case in2:
+					vrtAssert("third-file-sees-latest-earlier-file", *rk == "<"+v2+">")
+				case has1:
+					vrtAssert("third-file-sees-latest-earlier-file", *rk == "<"+v1+">")
+				case inPE:
+					vrtAssert("third-file-sees-project-environment", *rk == "<"+pe+">")
+				default:
+					vrtAssert("third-file-sees-nothing", *rk == "<>")
+				}
+			}
+		}
 		if discard {
 			vrtAssert("discard-removes-file-references", len(svc.EnvFiles) == 0)
 		} else {
-			vrtAssert("file-references-kept", len(svc.EnvFiles) == 2)
+			vrtAssert("file-references-kept", len(svc.EnvFiles) == 3)
 		}
 	}
 }
